@@ -77,6 +77,15 @@ CHECKS["C09"] = dict(
     note="'Eventually' is judged at one generous deadline computed from the settings. Nodes do not crash; only datagrams "
          "are lost, duplicated or delayed.")
 
+CHECKS["C07"] = dict(
+    category="exploration", design_ref="DESIGN.md 2/C07",
+    technique="bounded-exhaustive enumeration of event words + Hypothesis-drawn words against a per-packet fate model (carried / queued / dropped)",
+    text="All event words to depth 5 (quick) / 6 (thorough) over a 12-letter alphabet and Hypothesis-drawn words to length 60 "
+         "are run on a real TunnelEndpoint + TunnelCommunity over a recording raw endpoint; every anonymous packet's fate and "
+         "every raw datagram are judged. Exhaustive only over the stated word space.",
+    note="The circuit table is driven directly with real Circuit/Hop objects and keys (protocol side: C04/C05/C09). AEAD hiding "
+         "is checked by a 16-byte window rule, not proven.")
+
 PENDING = {}
 
 def main():
